@@ -321,6 +321,25 @@ def f31_sparse_grid_ranges_length():
     return False
 
 
+def f32_average_zero_weight_batch():
+    import numpy as np
+    for mk in (lambda: hg.Average(lambda x: x), lambda: hg.Deviate(lambda x: x)):
+        s = hg.Select(lambda x: x > 100, mk())
+        s.fill(500.0)
+        try:
+            s.fill.numpy(np.array([1.0, 2.0, 3.0]))        # no row passes the cut
+        except ZeroDivisionError:
+            return True
+    return False
+
+
+def f33_count_first_in_collection():
+    import numpy as np
+    h = hg.Branch(hg.Count(), hg.Sum(lambda x: x))
+    h.fill.numpy(np.array([1.0, 2.0, 3.0]))
+    return h.i0.entries != 3.0
+
+
 if __name__ == "__main__":
     present = 0
     for name, fn in sorted((k, v) for k, v in globals().items() if k.startswith("f") and k[1:3].isdigit()):
